@@ -204,20 +204,24 @@ func (s *handler) handleReader(ctx context.Context, r io.Reader, w io.Writer, rp
 			return
 		}
 
-		_, _ = w.Write([]byte("[")) // todo consider handling this error
-		for idx, req := range reqs {
-			if req.ID, err = normalizeID(req.ID); err != nil {
-				rpcError(wf, &req, rpcParseError, xerrors.Errorf("failed to parse ID: %w", err))
-				return
-			}
-
-			s.handle(ctx, req, wf, rpcError, func(bool) {}, nil)
-
-			if idx != len(reqs)-1 {
-				_, _ = w.Write([]byte(",")) // todo consider handling this error
-			}
+		// Only elements that produce a response contribute to the reply array
+		// (notifications produce none), so the brackets and separators are
+		// written by batchWriter as element output appears.
+		bw := &batchWriter{w: w}
+		bwf := func(cb func(io.Writer)) {
+			cb(bw)
 		}
-		_, _ = w.Write([]byte("]")) // todo consider handling this error
+		for _, req := range reqs {
+			bw.nextElem()
+
+			if req.ID, err = normalizeID(req.ID); err != nil {
+				rpcError(bwf, &req, rpcParseError, xerrors.Errorf("failed to parse ID: %w", err))
+				continue
+			}
+
+			s.handle(ctx, req, bwf, rpcError, func(bool) {}, nil)
+		}
+		bw.finish()
 	} else {
 		var req request
 		if err := json.NewDecoder(bufferedRequest).Decode(&req); err != nil {
@@ -231,6 +235,43 @@ func (s *handler) handleReader(ctx context.Context, r io.Reader, w io.Writer, rp
 		}
 
 		s.handle(ctx, req, wf, rpcError, func(bool) {}, nil)
+	}
+}
+
+// batchWriter writes the reply to a batch request: "[" before the first
+// element that produces output, "," before each later one and "]" at the end.
+// Nothing at all is written when no element produced output.
+type batchWriter struct {
+	w io.Writer
+
+	started     bool // "[" was written
+	elemStarted bool // the current element has produced output
+}
+
+func (b *batchWriter) nextElem() {
+	b.elemStarted = false
+}
+
+func (b *batchWriter) Write(p []byte) (int, error) {
+	if len(p) == 0 {
+		return 0, nil
+	}
+	if !b.elemStarted {
+		sep := "["
+		if b.started {
+			sep = ","
+		}
+		if _, err := b.w.Write([]byte(sep)); err != nil {
+			return 0, err
+		}
+		b.started, b.elemStarted = true, true
+	}
+	return b.w.Write(p)
+}
+
+func (b *batchWriter) finish() {
+	if b.started {
+		_, _ = b.w.Write([]byte("]")) // todo consider handling this error
 	}
 }
 
